@@ -75,7 +75,7 @@ def make_case(rng):
     if rng.random() < 0.15:
         return chained_case(rng), "chained"
     case = gen.multi_feature_case(rng, kind=gen.pick(rng, ["binary", "binary", "continuous"]), n=int(gen.pick(rng, [120, 250, 500])),
-                                  n_feat=int(rng.integers(2, 7)), with_dev=rng.random() < 0.2)
+                                  n_feat=int(rng.integers(2, 7)), with_dev=rng.random() < 0.2, degenerate=rng.random() < 0.5)
     which = gen.pick(rng, ["carver", "carver", "Discretizer"])
     if case.quant and rng.random() < 0.6:
         # a min_freq whose 1/min_freq is rounded down, and a column with values sitting exactly on the frequency bounds
